@@ -129,6 +129,11 @@ def make_file(rng: random.Random, cfg: dict | None = None) -> dict:
         tags.add("FOCUS")
     if rng.random() < 0.7:
         params.append(cat["params"]["D0_radius"])
+        if cfg.get("collisions") and rng.random() < 0.6:
+            # two legal parameter names that collapse to one programmatic name (C20 pools only: what the generator makes of
+            # such a pair is C19's business, that it makes the same of it in every process is C20's)
+            params.append("D0::radius                                        2              0.0041         0")
+            tags.add("colliding_parameter_names")
 
     def vary(ln):
         s = ln.split()
@@ -560,8 +565,21 @@ def run_c19(args: dict) -> dict:
                 stats["replicas_with_other_file_in_between"] += 1
             seen_files.add(fi)
             last_file = fi
-            o = do_op(op, files)
+            if args.get("table_fault_before") == stats["conversions"]:
+                _seams["fail_table_load"] = 1  # the next load of the special-particle table meets a transient I/O error
+            fired0 = _seams["table_load_faults_fired"]
+            if args.get("wfilter") == "error":
+                import warnings
+
+                with warnings.catch_warnings():
+                    warnings.simplefilter("error")  # a process run with -W error / PYTHONWARNINGS=error
+                    o = do_op(op, files)
+            else:
+                o = do_op(op, files)
             stats["conversions"] += 1
+            if _seams["table_load_faults_fired"] != fired0:
+                stats["replicas_hit_by_table_load_fault"] = stats.get("replicas_hit_by_table_load_fault", 0) + 1
+                continue  # nothing is promised about the call that met the fault, only about the ones after it
             if o["kind"] == "raise":
                 raise ampcheck.OracleFail("converts_to_both_languages", {"file": f["name"], "replica": [lang, how], "exc": o["exc"], "msg": o["msg"]})
             obs[(fi, lang, how)] = o
@@ -650,6 +668,9 @@ def c19_candidates(case: dict):
     base["files"], base["order"] = flist, order
     if case.get("clock"):
         yield {**base, "clock": []}
+    for k in ("wfilter", "table_fault_before"):
+        if case.get(k) is not None:
+            yield {kk: vv for kk, vv in base.items() if kk != k}
     # a whole file out of the session
     if len(flist) > 1:
         for fi in range(len(flist)):
